@@ -32,6 +32,7 @@ def analyze(kit):
     name = kit.name
     r01, r03, r11 = kit.res["C01"], kit.res["C03"], kit.res["C11"]
     calls, metas = [], []
+    key_dep = []
     for cfg in kit.configs():
         env = kit.env(cfg)
         e_obs, e_rew, e_dis, e_act = (specenc.enc_spec(s) for s in (env.observation_spec, env.reward_spec, env.discount_spec, env.action_spec))
@@ -47,7 +48,8 @@ def analyze(kit):
             r01.evaluations += 1
         except Exception as e:
             kit.fail(["C01"], "step rejects action_spec.generate_value()", dict(cfg=cfg["label"], op="gen-accepted"), dict(err=repr(e)[:300]))
-        # ---- C10 (last sentence): random generators genuinely depend on the key
+        # ---- C10 (last sentence): random generators genuinely depend on the key.  Tiny grids can have a single possible
+        # instance, so the verdict is per ENVIRONMENT: some catalogued configuration must show two different instances.
         if name not in CONSTANT_RESET and not any(w in cfg["label"] for w in ("toy", "dummy", "csv")):
             import hashlib
             import jax as _jax
@@ -61,12 +63,8 @@ def analyze(kit):
                         continue
                     h.update(np.asarray(leaf).tobytes())
                 seen.add(h.hexdigest())
-            kit.res["C10"].evaluations += 1
-            kit.res["C10"].distinct.add((name, cfg["label"], "key-dependence"))
-            kit.res["C10"].count("key-dependence:%d-distinct-instances" % min(len(seen), 3))
-            if len(seen) < 2:
-                kit.fail(["C10"], "%s: every reset key gives the same instance (generator ignores its key)" % name,
-                         dict(cfg=cfg["label"], op="key-dependence"), dict(keys=int(np.asarray(st0.key).shape[0]), seed=kit.seed))
+            key_dep.append((cfg["label"], len(seen)))
+            kit.res["C10"].count("key-dependence:%s" % ("one-instance" if len(seen) < 2 else "several-instances"))
         for p in (0.0, 0.35):
             roll = kit.roll(cfg, p)
             _, st, ts, ac, fl, k0 = roll
@@ -127,6 +125,12 @@ def analyze(kit):
                         kit.fail(["C11"], "episode still running after its structural horizon", dict(cfg=cfg["label"], op="horizon"),
                                  dict(horizon=H, first_last=int(fl[b]), p=p, b=b, seed=kit.seed))
                 r11.count("horizon-checked", B)
+    if key_dep:
+        kit.res["C10"].evaluations += 1
+        kit.res["C10"].distinct.add((name, "key-dependence"))
+        if all(n < 2 for _, n in key_dep):
+            kit.fail(["C10"], "%s: every reset key gives the same instance in every configuration (generator ignores its key)" % name,
+                     dict(cfg="*", op="key-dependence"), dict(configs=key_dep, seed=kit.seed))
     outs = kit.model(calls)
     for (entry, args), (pid, kind, m), got in zip(calls, metas, outs):
         r = kit.res[pid]
